@@ -496,6 +496,15 @@ def long_configs(tier):
     return out
 
 
+def real_configs(tier):
+    """Realistic lengths (pruning has been active for a while, more than 16 / 32 prefixes with pending starts): every
+    placement of <= 2 changes, min_segment_length 10 and 4: (det, n, msl, M, pen)."""
+    out = [("CAPA", 40, 10, 40, ("scale", 1.0, 1.0)), ("MVCAPA", 40, 10, 40, ("callable", 3.0, (2,), 5, (1,))), ("CAPA", 40, 4, 25, ("scale", 1.0, 1.0))]
+    if tier != "quick":
+        out += [("CAPA", 56, 10, 56, ("scale", 1.0, 1.0)), ("CAPA", 72, 12, 40, ("scale", 0.5, 0.5)), ("MVCAPA", 56, 7, 56, ("callable", 3.0, (2,), 5, (1,)))]
+    return out
+
+
 def xlong_configs(tier):
     """Very long single cases (block boundaries of a chunked implementation fall inside the data): (det, n, msl, M, pen)."""
     out = []
@@ -507,6 +516,9 @@ def xlong_configs(tier):
 
 def shards(tier, seed):
     sh = [("xlong", tier, i) for i in range(len(xlong_configs(tier)))] + [("long", tier, i) for i in range(len(long_configs(tier)))]
+    for i, (det, n, msl, M, pen) in enumerate(real_configs(tier)):
+        tot = 2 * (1 + (n - 1) + (n - 1) * (n - 2) // 2)
+        sh += [("real", tier, i, lo, min(tot, lo + 300)) for lo in range(0, tot, 300)]
     for ci, cfg in enumerate(table_configs(tier)):
         det, n, p, msl, M, fam, pvfam, pens = cfg
         nt = len(family_tables(n, msl, M, fam))
@@ -530,6 +542,7 @@ def bounds(tier, seed):
         ],
         "data_configs": [str(c) for c in data_configs(tier, seed)][:80],
         "medium_length(det,n,msl,M,pen)": [str(c) for c in long_configs(tier)],
+        "realistic_length(det,n,msl,M,pen), all placements of <= 2 changes": [str(c) for c in real_configs(tier)],
     }
 
 
@@ -545,6 +558,11 @@ def run_shard(shard):
                 for u in range(t, min(n, t + 5 + (t // 97) % 20)):
                     x[u][0] += 4.0
         check_case(acc, {"mode": "data", "det": det, "x": x, "csav": "L2Saving", "psav": "L2Saving", "msl": msl, "M": M, "pen": list(pen), "timeout": 900})
+        return acc
+    if shard[0] == "real":
+        det, n, msl, M, pen = real_configs(shard[1])[shard[2]]
+        for cps, xs in itertools.islice(util.structured_series(n, 2, (0.0, 3.0)), shard[3], shard[4]):
+            check_case(acc, {"mode": "data", "det": det, "x": [[v] for v in xs], "csav": "L2Saving", "psav": "L2Saving", "msl": msl, "M": M, "pen": list(pen)})
         return acc
     if shard[0] == "long":
         det, n, msl, M, pen = long_configs(shard[1])[shard[2]]
